@@ -336,6 +336,13 @@ pub(crate) fn compare(obs: &mut Obs, key: &str, l: &Props, r: &Props, map: &[usi
     let mut sharp = 0u32;
     let tracked = !key.contains("(probe)") && !key.contains("(attribution)");
     let mut one = |obs: &mut Obs, what: &str, u: (f64, f64), v: (f64, f64), norm: f64, abs: f64| {
+        if (u.1.is_nan() || v.1.is_nan()) && u.0.is_finite() && v.0.is_finite() {
+            // finite value (by-product of a dual-number evaluation) but NaN contribution-wise scale
+            // (f64 route of the association solver not converged): finding
+            // C11/association-nonconvergence-flips-with-route, nothing to compare against
+            obs.class("NaN scale with finite values: comparison skipped");
+            return;
+        }
         let (lo, hi) = (u.1.min(v.1), u.1.max(v.1));
         let allow = (tol.rel * lo + tol.round * hi) / norm + abs;
         let d = (u.0 - v.0).abs() / norm;
